@@ -96,3 +96,10 @@ Example go_camel_refuted_class3 : refutes [R ["JSON"%string]; W "Is"] = true.   
 Proof. vm_compute. reflexivity. Qed.
 Example go_camel_refuted_class4 : refutes [R ["JSON"; "UTF8"]] = true.        (* jsonutf8 *)
 Proof. vm_compute. reflexivity. Qed.
+
+(* class 6: list-order matching goes wrong (UI before UID) on a run whose concatenation is, in addition,
+   ambiguous for greedy longest-first matching (HTTP+SSH also reads HTTPS+SH): html ui dxsrfhttpssh *)
+Example go_camel_refuted_class6 :
+  refutes [R ["HTML"; "UID"; "XSRF"; "HTTP"; "SSH"]] = true /\
+  guard_class None [R ["HTML"; "UID"; "XSRF"; "HTTP"; "SSH"]] = 6%N.
+Proof. split; vm_compute; reflexivity. Qed.
